@@ -348,10 +348,12 @@ class World:
 
     def _resolve_name(self, name: str, module: str | None, depth: int) -> T.Ty:
         prim = {"int": T.INT, "float": T.REAL, "bool": T.BOOL, "str": T.STR, "None": T.NONE,
-                "Any": T.ANY, "object": T.ANY, "bytes": T.STR, "datetime": T.Opaque("datetime"),
+                "Any": T.ANY, "object": T.ANY, "bytes": T.STR, "datetime": T.Opaque("datetime"), "type": T.TYPE,
                 "timedelta": T.Opaque("timedelta")}
         if name in prim:
             return prim[name]
+        if name.startswith("Opaque__"):
+            return T.Opaque(name[8:])  # spec type strings: "dict[str, opaque:X]" is rewritten to Opaque__X
         if name in self.plain_classes:
             return T.Obj(name)
         if self.is_exc_class(name, module):
